@@ -19,6 +19,7 @@ type GateSpec struct {
 	Assume   *Assume
 	Guards   []Guard
 	MustCall [][]string // each entry: alternative callee symbols, one of which must be passed
+	MustNode [][]string // each entry: symbols a statement on every path must mention (e.g. a masking assignment)
 	MinSites int        // minimal number of target sites (default 1)
 	// Arm restricts the check to one clause of the switch over Opcode constants (pkg/vm): the clause
 	// containing this constant; From = entries of the clause, guards and targets inside it.
@@ -126,6 +127,15 @@ func runGates(c *Ctx, specs []GateSpec) {
 			}
 			targets = blocksOf(sites)
 			tdesc = "call of " + strings.Join(syms, "|")
+		case strings.HasPrefix(sp.Target, "node:"):
+			syms := strings.Split(strings.TrimPrefix(sp.Target, "node:"), ",")
+			sites := inRegion(f.NodeSites(syms...))
+			if len(sites) == 0 {
+				c.Lost(base+".target", fmt.Sprintf("%s: no statement mentioning %s", FuncKey(fd.Obj), strings.Join(syms, " + ")))
+				continue
+			}
+			targets = blocksOf(sites)
+			tdesc = "statement mentioning " + strings.Join(syms, " + ")
 		case strings.HasPrefix(sp.Target, "write:"):
 			fld := strings.TrimPrefix(sp.Target, "write:")
 			sites := inRegion(f.WriteSites(fld))
@@ -166,6 +176,15 @@ func runGates(c *Ctx, specs []GateSpec) {
 					path = append([]string{"gating conditions found: " + strings.Join(res.GatePos, "; ")}, path...)
 				}
 				c.Fail(key, pos, fmt.Sprintf("%s: %s is not protected: %s", FuncKey(fd.Obj), tdesc, res.Msg), path...)
+			}
+		}
+		for _, mn := range sp.MustNode {
+			ok, path, n := f.CheckMustNode(from, targets, sp.Assume, mn...)
+			key := base + ".must-pass." + shortSym(mn[len(mn)-1])
+			if ok && n > 0 {
+				c.OK(key, c.P.Pos(fd.Decl.Pos()), fmt.Sprintf("%s: every path to the %s passes a statement mentioning %s", FuncKey(fd.Obj), tdesc, strings.Join(mn, " + ")))
+			} else {
+				c.Fail(key, c.P.Pos(fd.Decl.Pos()), fmt.Sprintf("%s: a path reaches the %s without passing a statement mentioning %s", FuncKey(fd.Obj), tdesc, strings.Join(mn, " + ")), path...)
 			}
 		}
 		for _, mc := range sp.MustCall {
